@@ -111,7 +111,7 @@ CHECKS['C09'] = dict(
                quick=dict(defines=['VERIF_RECORDS=1'], bounds='1 record with symbolic output (4), mtime (3), dependency list (4 menus); torn at every byte', limits=dict(time=1500)),
                thorough=dict(defines=['VERIF_RECORDS=2'], bounds='1..2 such records', limits=dict(time=3000, max_paths=3000000)))])
 
-SCENARIOS = ['chain', 'restat_then_deps', 'diamond_order_only', 'depfile_plain', 'deps_msvc', 'multi_out_phony', 'generator_validation', 'dyndep', 'generated_header_deps', 'pools', 'dyndep_static_consumer', 'dyndep_static_consumer_oo', 'restat_phony']
+SCENARIOS = ['chain', 'restat_then_deps', 'diamond_order_only', 'depfile_plain', 'deps_msvc', 'multi_out_phony', 'generator_validation', 'dyndep', 'generated_header_deps', 'pools', 'dyndep_static_consumer', 'dyndep_static_consumer_oo', 'restat_phony', 'wide3']
 _PIPE_ASSUME = ['commands are deterministic functions of the files they read at start (content ids), write only their declared outputs/depfile, and report every extra file they read through the depfile/deps/dyndep mechanism',
                 'modification times never go backwards: every write and every user edit gets a strictly later tick than anything before it',
                 'graph shapes: the scenario catalogue in harness/scenarios.h (shape is concrete manifest text parsed by the real ManifestParser); histories, schedules, options and faults are symbolic within the stated bounds',
@@ -163,7 +163,8 @@ CHECKS['C05'] = dict(
     level_text='One symbolic invocation over the whole real pipeline in which any subset of commands fails with a symbolic exit code (1..3), with or without having touched its outputs, under -k in {1,2,0} and -j in {1..3} and every completion order; a declared source may be missing. The harness asserts containment (no dependent of a failed command starts), the exit status and stop message, that successful commands are recorded in .ninja_log (re-read from the in-memory file system by the real loader) and failed ones are not, that the failure budget is honoured in both directions, and that the next build retries every failed command.',
     level_note='Trusted base as C01. ParseExitStatus in subprocess-posix.cc is outside the encoding (SubprocessSet is a cut point); exit code 130 is covered by C07. Bounds: catalogue shapes, one invocation from the empty tree (plus built-then-perturbed states in the thorough tier).',
     assumptions=_PIPE_ASSUME,
-    jobs=_mode_jobs('MODE_FAIL', [0, 2, 5], reach=('failed', 'retried', 'all-succeeded', 'missing-source'), bounds='one invocation from the empty tree; any subset of commands fails with exit code 1..3, touched or not; -k in {1,2,0}; -j in {1,2,3}; any one source missing') +
+    jobs=_mode_jobs('MODE_FAIL', [0, 2, 5, 13], reach=('failed', 'retried', 'all-succeeded', 'missing-source'), bounds='one invocation from the empty tree; any subset of commands fails with exit code 1..3, touched or not; -k in {1,2,0}; -j in {1,2,3}; any one source missing') +
+         _mode_jobs('MODE_FAIL', [13, 0], extra=['WITH_JOBSERVER'], suffix='_tokens', reach=('failed', 'retried'), bounds='the same as a jobserver client with the implicit slot plus 0..1 explicit tokens') +
          _mode_jobs('MODE_FAIL', [9], reach=('failed', 'retried'), bounds='one invocation from the empty tree with pools; faults as above', thorough_only=True) +
          _mode_jobs('MODE_FAIL', [0, 1, 3], extra=['FROM_BUILT'], suffix='_built', reach=('failed', 'retried'), bounds='the same from a fully built tree after symbolic edits/deletions', thorough_only=True))
 CHECKS['C06'] = dict(
